@@ -13,7 +13,7 @@ OBLIGATIONS = [
     "PgmVerif.C04_den_normalize", "PgmVerif.C04_axis_order_irrelevant",
     "PgmVerif.C04_product_comm", "PgmVerif.C04_product_assoc", "PgmVerif.C04_wf_product",
     "PgmVerif.C04_wf_marginalize", "PgmVerif.unravel_ravel", "PgmVerif.ravel_unravel",
-    "PgmVerif.C04_scalar_ops", "PgmVerif.C04_scalar_neutral", "PgmVerif.C04_normalize_scale", "PgmVerif.C04_divide_product_cancel", "PgmVerif.C04_reduce_order_irrelevant", "PgmVerif.C04_eliminate_set",
+    "PgmVerif.C04_scalar_ops", "PgmVerif.C04_scalar_neutral", "PgmVerif.C04_normalize_scale", "PgmVerif.C04_divide_product_cancel", "PgmVerif.C04_reduce_order_irrelevant", "PgmVerif.C04_eliminate_set", "PgmVerif.C04_normalize_sums_to_one",
 ]
 PARTIAL = ["operand immutability and aliasing are heap facts: decided by snapshots in the correspondence, not by a theorem",
            "the documented float tolerance of __eq__ (atol 1e-8, numpy default rtol) is compared differentially"]
